@@ -458,10 +458,13 @@ class ScopeVariant(Variant):
 
 
 def extras(prop, tier, seed):
+    from pyvc.report import run_bounded
+    if prop in ("C09", "C14", "C15"):
+        return [run_bounded("parser_reset", tier, seed)]
     if prop != "C08":
         return []
-    from pyvc.report import run_bounded
-    return [run_bounded("smtlib_import", tier, seed), run_bounded("smtlib_malformed", tier, seed)]
+    return [run_bounded("smtlib_import", tier, seed), run_bounded("smtlib_malformed", tier, seed), run_bounded("parser_reset", tier, seed),
+            run_bounded("annotations", tier, seed)]
 
 
 def variants(world, tier="quick", only=None):
@@ -703,9 +706,11 @@ class OperatorTableVariant(Variant):
         goals = [("table-found", z3.BoolVal(len(self.table) > 40))]
         for name, want in sorted(list(STANDARD_TABLE.items()) + list(EXTENSIONS.items())):
             goals.append(("operator-table:%s-is-%s" % (name, want), z3.BoolVal(self.table.get(name) == want)))
-        for name in sorted(self.table):
-            if name not in STANDARD_TABLE and name not in EXTENSIONS:
-                goals.append(("operator-table:no-unknown-entry:%s" % name, z3.BoolVal(False)))
+        unknown = [name for name in sorted(self.table) if name not in STANDARD_TABLE and name not in EXTENSIONS]
+        if unknown:
+            # a name the specification table does not list cannot be judged here: undecided (out of reach), never a violation
+            ex.notes.append("operator-table entries outside the specification table: %s" % ", ".join(unknown))
+            self.unknown = unknown
         return goals
 
     def witness(self, model, ex):
@@ -835,6 +840,7 @@ class ResetVariant(Variant):
     constructed parser holds (the construction is observed natively on the same tree: probe 'fresh')."""
     prop_ids = ("C08", "C09", "C14", "C15")
     qualname = PARSER + "._reset"
+    replay_kind = "parser-reset"
     name = "reset:used-parser-reads-as-a-new-one"
 
     def __init__(self, world):
@@ -915,3 +921,104 @@ def variants(world, tier="quick", only=None):
     if only:
         extra = [v for v in extra if any(o in v.name for o in only)]
     return out + extra
+
+
+# ---------------------------------------------------------------------------
+# (! term :kw value ... ): each attribute gets exactly its own value (or none)
+# ---------------------------------------------------------------------------
+class AnnotationVariant(Variant):
+    """_enter_annotation on the token stream  <term> a1 ... an ')'  where attribute ai is `:ki` alone, `:ki v` or
+    `:ki ( ... )`: the annotations recorded for the term are exactly (ki, value of ai or None) in order, the closing
+    parenthesis is handed back to the term reader and the term is what the annotation denotes."""
+    prop_ids = ("C08",)
+    bounded = "arity"
+    replay_kind = "annotations"
+
+    def __init__(self, world, shape):
+        self.world, self.shape = world, tuple(shape)          # per attribute: 0 no value, 1 simple value, 2 parenthesised value
+        self.qualname = PARSER + "._enter_annotation"
+        self.name = "annotation:[%s]" % ",".join({0: "bare", 1: "valued", 2: "list-valued"}[s] for s in shape)
+
+    def setup(self, ex):
+        W = self.world
+        env = core.make_env(ex, W)
+        for c in (Consume(), GetExpression()):
+            c.world = W
+            W.contracts[c.qualname] = c
+        toks, self.want = [Term(0)], []
+        for i, s in enumerate(self.shape):
+            kw = ":attr%d" % i
+            toks.append(kw)
+            if s == 0:
+                self.want.append((kw[1:], None))
+            elif s == 1:
+                toks.append("value%d" % i)
+                self.want.append((kw[1:], "value%d" % i))
+            else:
+                toks += ["(", "x%d" % i, "(", "y", ")", ")"]
+                self.want.append((kw[1:], "(x%d(y))" % i))
+        toks.append(")")
+        ex.ghost["tokens"] = toks
+        ex.ghost["watch"] = []
+        self.added, self.extra = [], []
+        v = self
+        ann = Obj("pysmt.smtlib.annotations.Annotations", {}, tag="annotations")
+        ann.fields["add"] = Builtin("annotations.add", lambda exx, a, kw: v.added.append(tuple(a[1:4])), bound=ann)
+        cache = mk_cache(env)
+        cache.fields["annotations"] = ann
+        self.p = parser_obj(ex, W, env, cache)
+
+        def raw_read(exx, a, kw):
+            ts = exx.ghost["tokens"]
+            return ts.pop(0)
+        tk = Obj(TOK, {"pos_info": None}, tag="tokens")
+        tk.fields["raw_read"] = Builtin("raw_read", raw_read, bound=tk)
+        tk.fields["add_extra_token"] = Builtin("add_extra_token", lambda exx, a, kw: v.extra.append(a[1]), bound=tk)
+        self.stack = [[]]
+        fi = W.repo.method(PARSER, "_enter_annotation")
+        return W.wrap_func(fi, fi.module, bound=self.p), [self.stack, tk, "!"], {}
+
+    def check(self, ex, outcome):
+        kind, r = outcome
+        if kind == "raise":
+            return [("no-exception", z3.BoolVal(False))]
+        W = self.world
+        term = z3.Const("term0", Node)
+        goals = [("every-token-consumed", z3.BoolVal(len(ex.ghost["tokens"]) == 0)),
+                 ("one-record-per-attribute", z3.BoolVal(len(self.added) == len(self.want)))]
+        for i, (got, want) in enumerate(zip(self.added, self.want)):
+            t, k, val = got
+            ok_t = (t == term) if is_node(t) else z3.BoolVal(False)
+            kk = BI._eq(W, ex, k, want[0])
+            vv = (val is None) if want[1] is None else BI._eq(W, ex, val, want[1])
+            goals.append(("attribute-%d-on-the-term" % i, ok_t))
+            goals.append(("attribute-%d-keyword" % i, kk if is_z3(kk) else z3.BoolVal(bool(kk))))
+            goals.append(("attribute-%d-has-exactly-its-own-value" % i, vv if is_z3(vv) else z3.BoolVal(bool(vv))))
+        goals.append(("closing-parenthesis-handed-back", z3.BoolVal(self.extra == [")"])))
+        top = self.stack[-1]
+        ok = len(top) == 1
+        if ok:
+            try:
+                res = ex.call(top[0], [], {})
+                goals.append(("denotes-the-annotated-term", (res == term) if is_node(res) else z3.BoolVal(False)))
+            except Exception:
+                goals.append(("denotes-the-annotated-term", z3.BoolVal(False)))
+        else:
+            goals.append(("denotes-the-annotated-term", z3.BoolVal(False)))
+        return goals
+
+
+_base_variants8e = variants
+
+
+def variants(world, tier="quick", only=None):
+    import itertools
+    out = _base_variants8e(world, tier, None)
+    for n in (1, 2, 3):
+        for shape in itertools.product((0, 1, 2), repeat=n):
+            if n == 3 and tier == "quick" and 2 in shape and shape.count(2) > 1:
+                continue
+            out.append(AnnotationVariant(world, shape))
+    if only:
+        out = [v for v in out if any(o in v.name for o in only)]
+    return out
